@@ -346,6 +346,15 @@ def serverClose (s : Srv) : Srv × CloseRes :=
   let r := if s.dbFile then CloseRes.ok else CloseRes.err -- 162: `closeDatabase`: close, remove the file
   ({ s with dbOpen := false, dbFile := false }, r)
 
+/-- what a use of the server's database (`Context.Save` / `Load` of a service) gives: the handle is
+closed by `closeDatabase` and stays in place, so a late use is refused by the database
+(`database not open`).  `nilled = true`: the variant that drops the handle after closing it. -/
+inductive DbRes | ok | err | panic
+  deriving DecidableEq, Repr
+
+def dbUse (nilled : Bool) (s : Srv) : DbRes :=
+  if s.dbOpen then .ok else if nilled then .panic else .err
+
 /-! ### line-protocol front end: named threads over the router model -/
 namespace Drv
 
@@ -373,6 +382,7 @@ structure State where
   msgs    : Nat := 0
   tr      : String := ""          -- transport named by `init`
   srv     : Option (Srv × Ov) := none
+  dbBusy  : Bool := false         -- a service handler of the server is inside a delivery (op `srvdb`)
   ws      : Ws := {}              -- the server's websocket: `start` ran with `Server.Start`, one `stop` per `Close`
   startedOk : List Bool := []    -- per `srvstart`: did it succeed
   doneL   : List Nat := []       -- starts already declared done
@@ -733,6 +743,32 @@ def step (d : State) (toks : List String) : State × String :=
         (d, s!"returned={ns} listening={l.listening} late=0 listen-after={if (llStep l .listen).listening then "listening" else "returned"}")
       else (d, "bad-op")
     | _, _ => (d, "bad-op")
+  | ["multi", n, m] =>
+    -- one peer holds n connections with the router (both sides dialled, it dialled again, …); m of
+    -- them end, one after the other, and are removed from the table; then `Stop`.  The table lists
+    -- exactly the n - m that live on (`c10_table_lists_exactly_the_live`), `Stop` closes them all and
+    -- returns (`c10_all_closed`)
+    match n.toNat?, m.toNat? with
+    | some n, some m =>
+      if n = 0 ∨ n > 8 ∨ m > n ∨ !d.threads.isEmpty ∨ !d.core.conns.isEmpty ∨ (d.tr ≠ "tcp" ∧ d.tr ≠ "local") then (d, "bad-op") else
+      let t := tblRun false [] ((List.range n).map (fun i => TblAct.register i 1) ++ (List.range m).map TblAct.remove)
+      (d, s!"listed={t.length} stopped=true open=0")
+    | _, _ => (d, "bad-op")
+  | ["srvdb"] =>
+    -- a peer message is being handled by a service of the server (a goroutine of its own that
+    -- `Server.Close` does not wait for)
+    match d.srv with
+    | some (sv, _) => if sv.routerUp ∧ !d.dbBusy then ({ d with dbBusy := true }, "busy=ok") else (d, "bad-op")
+    | none => (d, "bad-op")
+  | ["srvdbgo"] =>
+    -- the handler goes on and stores / reads back its result
+    match d.srv with
+    | some (sv, _) =>
+      if d.dbBusy then
+        let r := match dbUse false sv with | .ok => "ok" | .err => "err" | .panic => "panic"
+        ({ d with dbBusy := false }, s!"save={r} load={r}")
+      else (d, "bad-op")
+    | none => (d, "bad-op")
   | ["srvstate"] =>
     -- what the server holds on to: the peer-side port (a real port on TCP only), the client-side
     -- port (the websocket's HTTP server), the database handle and the database file
